@@ -54,6 +54,24 @@ Theorem C14_no_panic_unguarded_refuted :
 Proof. exact env_no_panic_false. Qed.
 Print Assumptions C14_no_panic_unguarded_refuted.
 
+(* ---- tie to the source: EnvelopeEncryption::decrypt_seed and encrypt_seed as translated from
+   src/kms/envelope.rs on this run ARE the model's functions (AES-256-GCM and the KMS provider are
+   parameters; the random DEK and nonce are inputs): every length check, the cursor reads, the
+   order of the fields written ---- *)
+Require RV.Model.GenSupport RV.Gen.Code RV.Proofs.CodeEnvelope.
+Theorem C14_translated_decrypt_is_model :
+  forall open unwrap_dek blob,
+    RV.Gen.Code.gen_decrypt_seed unwrap_dek open tt blob = decrypt_seed open unwrap_dek blob.
+Proof. exact RV.Proofs.CodeEnvelope.gen_decrypt_seed_model. Qed.
+Print Assumptions C14_translated_decrypt_is_model.
+
+Theorem C14_translated_encrypt_is_model :
+  forall seal wrap_dek dek nonce plaintext, length dek = DEK_LEN_BYTES ->
+    RV.Gen.Code.gen_encrypt_seed nonce dek wrap_dek seal tt plaintext
+    = encrypt_seed seal wrap_dek dek nonce plaintext.
+Proof. exact RV.Proofs.CodeEnvelope.gen_encrypt_seed_model. Qed.
+Print Assumptions C14_translated_encrypt_is_model.
+
 (* ---- tie to the source: the integer literals of the functions this property's model stands for
    (private constants, bounds, unit factors; the files are SiteMap.files_C14) are today the ones the
    model was written against. Gen/Sites.v num_literals is regenerated from /repo on every run; a
